@@ -293,6 +293,8 @@ def lift(v, ty: Ty | None = None) -> SV:
                 return SV(TReal, z3.ToReal(v.t))
             if ty.kind == "opt" and v.ty == ty.args[0]:
                 return SV(ty, ty.sort().some(v.t))
+            if v.ty.kind == "opt" and v.ty.args[0] == ty:
+                return SV(ty, v.ty.sort().val(v.t))  # an Optional used where its value is expected (None case excluded by the path)
             raise LiftError(f"type mismatch: have {v.ty!r}, want {ty!r}")
         return v
     if ty is not None and not isinstance(v, SV):
